@@ -99,11 +99,19 @@ def toModelCols (cols : List Col) : Gen (List Model.Column) := do
   let mut i := 0
   for c in cols do
     let num : Int := if ← Gen.prob 1 4 then 0 else (i : Int) + 1
-    let fallbackOk := Model.typeAlign c.typid c.len == c.align
+    -- "their type's alignment": a type PostgreSQL defines may be left to the tool's table iff the column really has
+    -- that type's alignment; for oids nobody knows, only when the tool's guess by length happens to be right
+    let fallbackOk := match (if c.typid < 0 then none else Spec.pgTypAlign.lookup c.typid.toNat) with
+      | some a => a == c.align
+      | none => Model.typeAlign c.typid c.len == c.align
     let al := if fallbackOk && (← Gen.prob 1 3) then 0 else alignChar c.align
     out := out.push ⟨c.name, c.typid, c.len, num, al⟩
     i := i + 1
   return out.toList
+
+/-- every column left to the tool's fallback table -/
+def align0ModelCols (cols : List Col) : List Model.Column :=
+  cols.zipIdx.map fun (c, i) => ⟨c.name, c.typid, c.len, (i : Int) + 1, 0⟩
 
 def plainModelCols (cols : List Col) : List Model.Column :=
   cols.zipIdx.map fun (c, i) => ⟨c.name, c.typid, c.len, (i : Int) + 1, alignChar c.align⟩
